@@ -2,16 +2,18 @@
    Statement only; proofs in Gateway/Sound_C16.v (gateway) and Client/Sound_Client.v (client).
    PARTIAL: the safety clauses are proved of the component models; the liveness clause (delivery
    and acknowledgement within the retry budget over a lossy link) is proved of the composed system
-   (System/ComposeLoss.v) for QoS 1 messages on subscribed short topics under any pattern of lost
-   PUBLISHes / PUBACKs within the budget; QoS 2, the REGISTER step and duplication faults are NOT
-   proved - they are checked on the real client + real gateway by the end-to-end monitor
-   (Checkers/ChkE2E.v clauses (16,4)-(16,6)) on generated fault lists. *)
+   (System/ComposeLoss.v, ComposeLoss2.v) for QoS 1 messages on subscribed short topics under any
+   pattern of lost PUBLISHes / PUBACKs within the budget, for QoS 2 with one lost datagram at any
+   position (handler exactly once), and for the REGISTER step with one loss at any position;
+   arbitrary loss patterns for QoS 2 and duplication faults are NOT proved - they are checked on the
+   real client + real gateway by the end-to-end monitor (Checkers/ChkE2E.v clauses (16,4)-(16,6))
+   on generated fault lists. *)
 From stdpp Require Import base option list numbers fin_maps nmap.
 From Verif.Base Require Import Bytes.
 From Verif.Codec Require Import Packets Decode Encode.
 From Verif.Gateway Require Import GwTypes GwStep GwWf GwRun Sound_C16 Sound_C16b.
 From Verif.Client Require Import ClTypes ClStep Sound_Client.
-From Verif.System Require Import Compose ComposeProofs ComposeProofs2_aux ComposeProofs2 ComposeLoss.
+From Verif.System Require Import Compose ComposeProofs ComposeProofs2_aux ComposeProofs2 ComposeLoss ComposeLoss2.
 From Verif.Checkers Require Import ChkCodec ChkGw ChkGw5 ChkCl.
 Open Scope N_scope.
 
@@ -74,6 +76,56 @@ Theorem C16_qos1_delivered_within_the_retry_budget :
       QuietS cfg y2 subs.
 Proof. exact e2e_bpub_q1_lossy_counts. Qed.
 Print Assumptions C16_qos1_delivered_within_the_retry_budget.
+
+(* QoS 2 (short subscribed topic), one lost datagram at any of the four positions of the exchange - the
+   gateway's PUBLISH, the client's PUBREC, the gateway's PUBREL, the client's PUBCOMP (one_loss): the
+   exchange completes PUBREC, PUBREL and PUBCOMP on both sides, the client's handler runs EXACTLY ONCE,
+   the broker receives exactly PUBREC and then PUBCOMP, and the system is quiescent again.  (Exact traces,
+   and n consecutive losses of the PUBLISH or of the PUBREL within the budget: ComposeLoss2.v.) *)
+Theorem C16_qos2_completes_exactly_once_with_one_loss :
+  forall cfg y subs s dup retain mid payload pos d,
+    QuietS cfg y subs -> In s subs -> 1 <= mid < 65536 -> okb payload = true ->
+    0 < retry_delay (e_gw cfg) -> 1 <= retry_count (e_gw cfg) ->
+    one_loss cfg (y_c2g_k y) (y_g2c_k y) pos -> retry_delay (e_gw cfg) <= d ->
+    exists y1 tr1 y2 tr2,
+      sys_step cfg y (SBpub (MqPublish dup 2 retain (sub_topic s) mid payload)) = (y1, tr1) /\
+      sys_step cfg y1 (SAdv d) = (y2, tr2) /\
+      cbs_of (tr1 ++ tr2) = [(sub_id s, sub_topic s, payload)] /\
+      brs_of (tr1 ++ tr2) = [MqPubrec mid; MqPubcomp mid] /\ rets_of (tr1 ++ tr2) = [] /\
+      QuietS cfg y2 subs /\ gw_now (y_gw y2) = gw_now (y_gw y) + d.
+Proof. exact e2e_bpub_q2_one_loss_once. Qed.
+Print Assumptions C16_qos2_completes_exactly_once_with_one_loss.
+
+(* The REGISTER step (a QoS 1 message on a name that has no topic ID yet, from any connected quiescent
+   state in which the allocator can hand out the next ID: RegReady), with the client's REGACK lost: the
+   gateway retransmits the same REGISTER, the client accepts the same registration again, the PUBLISH
+   follows under the new ID, is acknowledged, and both sides end with the same registration (RegDone).
+   (REGISTER itself lost n times, the PUBLISH lost n times, the PUBACK lost: ComposeLoss2.v.) *)
+Theorem C16_register_step_survives_a_lost_regack :
+  forall cfg y dup retain topic mid payload d,
+    Quiet cfg y -> RegReady cfg y topic -> 1 <= mid < 65536 -> okb payload = true ->
+    0 < retry_delay (e_gw cfg) -> 1 <= retry_count (e_gw cfg) ->
+    nth_fault (e_g2c cfg) (y_g2c_k y) = FDeliver -> nth_fault (e_c2g cfg) (y_c2g_k y) = FDrop ->
+    nth_fault (e_g2c cfg) (S (y_g2c_k y)) = FDeliver -> nth_fault (e_c2g cfg) (S (y_c2g_k y)) = FDeliver ->
+    nth_fault (e_g2c cfg) (S (S (y_g2c_k y))) = FDeliver -> nth_fault (e_c2g cfg) (S (S (y_c2g_k y))) = FDeliver ->
+    retry_delay (e_gw cfg) <= d ->
+    let t := gw_now (y_gw y) in
+    let rd := retry_delay (e_gw cfg) in
+    let i := gw_seq_next (y_gw y) in
+    exists y1 y2,
+      sys_step cfg y (SBpub (MqPublish dup 1 retain topic mid payload)) =
+        (y1, [SoBS t (MqPublish dup 1 retain topic mid payload); SoG2C t FDeliver (pack (Register i mid topic));
+              SoC2G t FDrop (pack (Regack i mid RC_ACCEPTED))]) /\
+      cl_registered (y_cl y1) = reg_set (cl_registered (y_cl y)) topic i /\
+      sys_step cfg y1 (SAdv d) =
+        (y2, [SoG2C (t + rd) FDeliver (pack (Register i mid topic)); SoC2G (t + rd) FDeliver (pack (Regack i mid RC_ACCEPTED));
+              SoG2C (t + rd) FDeliver (pack (Publish dup 1 retain TIT_REGISTERED i mid payload));
+              SoC2G (t + rd) FDeliver (pack (Puback i mid RC_ACCEPTED))] ++
+             scb_at y (t + rd) topic payload 1 retain dup mid ++ [SoBR (t + rd) (MqPuback mid)]) /\
+      Quiet cfg y2 /\ gw_now (y_gw y2) = t + d /\ RegDone y y2 topic i /\
+      y_c2g_k y2 = S (S (S (y_c2g_k y))) /\ y_g2c_k y2 = S (S (S (y_g2c_k y))).
+Proof. exact e2e_bpub_reg_q1_regack_lost. Qed.
+Print Assumptions C16_register_step_survives_a_lost_regack.
 
 (* Client side (shared with C17): for every behaviour of gateway and link, a PUBREL - also a
    retransmitted one for an exchange the client already finished - is answered with exactly one
